@@ -171,16 +171,24 @@ pub fn display_ident(f: &mut std::fmt::Formatter, ident: &Ident) -> Result<(), s
     Ok(())
 }
 
+/// Words the lexer does not produce an identifier token for; they need backticks
+/// to be read back as names.
+const RESERVED_WORDS: [&str; 13] = [
+    "let", "into", "case", "prql", "type", "module", "internal", "func", "import", "enum", "true",
+    "false", "null",
+];
+
 pub fn display_ident_part(f: &mut std::fmt::Formatter, s: &str) -> Result<(), std::fmt::Error> {
     fn forbidden_start(c: char) -> bool {
-        !(c.is_ascii_alphabetic() || matches!(c, '_' | '$'))
+        !(c.is_ascii_alphabetic() || c == '_')
     }
     fn forbidden_subsequent(c: char) -> bool {
         !(c.is_ascii_alphabetic() || c.is_ascii_digit() || c == '_')
     }
     let needs_escape = s.is_empty()
         || s.starts_with(forbidden_start)
-        || (s.len() > 1 && s.chars().skip(1).any(forbidden_subsequent));
+        || (s.len() > 1 && s.chars().skip(1).any(forbidden_subsequent))
+        || RESERVED_WORDS.contains(&s);
 
     if needs_escape {
         write!(f, "`{s}`")
